@@ -172,6 +172,7 @@ class CuckooSystem(System):
         evs += [("remove", i) for i in range(len(keys))]
         if st.impl.capacity < cfg["capacity"] * 4:
             evs.append(("expand",))
+        evs.append(("reload",))  # continue the history on the object obtained by loading an export
         return evs
 
     # ---- transitions: all resolutions of the random draws
@@ -199,6 +200,21 @@ class CuckooSystem(System):
                         m["fp"][fp] -= 1
                         if m["fp"][fp] <= 0:
                             del m["fp"][fp]
+            elif ev[0] == "reload":
+                er = cfg.get("by_rate")
+                hf = make_hash(cfg)
+                cls = _cls(cfg)
+                r = call(lambda: cls.frombytes(bytes(f), error_rate=er, hash_function=hf) if er else cls.frombytes(bytes(f), hash_function=hf))
+                if r[0] == "ok":
+                    g = r[1]
+                    if not er:
+                        g.fingerprint_size = 1
+                    g.expansion_rate = f.expansion_rate
+                    g.auto_expand = f.auto_expand
+                    st.impl = f = g
+                    obs = ("ok", None)
+                else:
+                    obs = r
             else:
                 obs = call(f.expand)
         m["fp"] = dict(sorted(m["fp"].items()))
@@ -248,8 +264,14 @@ class CuckooSystem(System):
             return out
         if obs[0] == "exc":
             if obs[1] != "CuckooFilterFullError":
+                if ev[0] == "reload":
+                    bad("C05", "cuckoo.reload_event", {"obs": obs})
+                    return out or PRUNE
                 for p in ("C03", "C15", "C08"):
                     bad(p, "cuckoo.unexpected_exception", {"ev": ev, "obs": obs})
+                return out or PRUNE
+            if ev[0] == "reload":
+                bad("C05", "cuckoo.reload_event", {"obs": obs})
                 return out or PRUNE
             if ev[0] != "add":
                 return PRUNE  # expand() that raises is outside the claim
